@@ -51,6 +51,24 @@ def lin(e):
     return None
 
 
+def eval_flag_expr(e, oneway):
+    """value (0/1/bool) of an expression built from Call::oneway(), `!`, `as usize` / usize::from / bool-to-int; None if it has another shape"""
+    k = e[0]
+    if k == 'const':
+        return e[1]
+    if k == 'call' and e[1] == 'oneway':
+        return bool(oneway)
+    if k == 'un' and e[1] == 'Not':
+        v = eval_flag_expr(e[2], oneway)
+        return None if v is None else (not v)
+    if k == 'call' and e[1] in ('from', 'into', 'try_from') and len(e[2]) == 1:
+        v = eval_flag_expr(e[2][0], oneway)
+        return None if v is None else int(v)
+    if k == 'call' and e[1] in ('then_some', 'unwrap_or', 'unwrap_or_default'):
+        return None
+    return None
+
+
 def oneway_switch(body):
     """(switch block, true target, false target) of the branch on Call::oneway() of the enqueued call"""
     for sw in range(body.n):
@@ -105,6 +123,7 @@ def check_chain(fx, rep, crate, cfg):
             watch['ow_false'] = {ow[2]}
         # field stores with constant deltas
         deltas = {}
+        delta_exprs = {}
         for b, i, s in body.iter_assigns():
             lf = mir.place_last_field(s['place'])
             if not lf or not (lf[0] and CH in lf[0]):
@@ -116,6 +135,10 @@ def check_chain(fx, rep, crate, cfg):
             d = None
             if e and e[0] == 'bin' and e[1] in ('Add', 'Sub') and e[3][0] == 'const':
                 d = e[3][1] if e[1] == 'Add' else -e[3][1]
+            elif e and e[0] == 'bin' and e[1] in ('Add', 'Sub'):
+                # the amount is an expression of the flag (e.g. usize::from(!call.oneway())): evaluated per polarity below
+                d = 'expr%d' % b
+                delta_exprs[d] = (e[3], 1 if e[1] == 'Add' else -1)
             name = 'store|%s|%s|%d' % (lf[1], d, b)
             watch[name] = {b}
         okb = set(C.ok_exit_blocks(body))
@@ -164,9 +187,33 @@ def check_chain(fx, rep, crate, cfg):
                         if fld in owed:
                             if d == 'None':
                                 unknown = True
+                            elif d.startswith('expr'):
+                                pass
                             else:
                                 val += owed[fld] * int(d)
             want = {'oneway': [0], 'reply': [1], 'unknown': [0, 1]}[pol]
+            # amounts that are expressions of the flag: evaluate for each polarity the path is consistent with
+            expr_marks = [m for m in passed if m.startswith('store|') and m.split('|')[2].startswith('expr')]
+            if expr_marks and not aggr:
+                okp = True
+                for ow, w in ((True, 0), (False, 1)):
+                    if pol == 'oneway' and not ow or pol == 'reply' and ow:
+                        continue
+                    v2 = val
+                    for m in expr_marks:
+                        _, fld, dk, _b = m.split('|')
+                        ev = eval_flag_expr(delta_exprs[dk][0], ow)
+                        if ev is None:
+                            okp = False
+                        elif fld in owed:
+                            v2 += owed[fld] * ev * delta_exprs[dk][1]
+                    if v2 != w:
+                        okp = False
+                if not okp:
+                    bad.append({'call_is': pol, 'owed_changes_by': 'flag expression that does not evaluate to 1 / 0'})
+                else:
+                    seen_pol.update({'oneway', 'reply'} if pol == 'unknown' else {pol})
+                continue
             if unknown or any(val != w for w in want):
                 bad.append({'call_is': pol, 'owed_changes_by' if not aggr else 'owed_starts_at': None if unknown else val})
         kind = 'initial value' if aggr else 'change'
